@@ -138,6 +138,8 @@ Inductive fcall :=
 | FAppends (th : nat) (tr : list (option etype))
 (* branch / handoff of thread th whose k-th log append failed (None: none did) *)
 | FLineage (t : etype) (th : nat) (k : option nat)
+(* ensure_default on an authority without a default thread: create_continuity, its log append refused (Some 0) or not *)
+| FCreate (k : option nat)
 | FRestart.
 
 Definition prog_of_fcall (l : log) (o : fcall) : list mstep :=
@@ -148,12 +150,14 @@ Definition prog_of_fcall (l : log) (o : fcall) : list mstep :=
   | FLineage t th k =>
     [MTarget (nth_thread l th); MRead]
     ++ match k with Some k => fail_at k (lineage_prog t [] []) | None => lineage_prog t [] [] end
+  | FCreate k => match k with Some k => fail_at k (create_prog []) | None => create_prog [] end
   | FRestart => []
   end.
 Definition fcall_ok (o : fcall) : bool :=
   match o with
   | FAppends _ tr => forallb (fun x => match x with Some t => is_cont t | None => true end) tr
   | FLineage t _ _ => is_cont t
+  | FCreate _ => true
   | FRestart => true
   end.
 
@@ -169,9 +173,20 @@ Fixpoint run_fcalls (st : state) (os : list fcall) : list N * state :=
   | o :: r => let st' := do_fcall st o in
               let '(ns, fin) := run_fcalls st' r in (nlen (s_log st') :: ns, fin)
   end.
+(* af_setup may be empty: the history then starts on an authority without any thread *)
 Record case_af := { af_setup : list call; af_calls : list fcall; af_expect : list N }.
 Definition model_obs_af (c : case_af) : list N :=
   let '(_, st) := run_calls empty_state (af_setup c) in
   let '(ns, fin) := run_fcalls st (af_calls c) in
   ns ++ (if validate (s_log fin) then 1 else 0) :: canon_log (s_log fin).
 Definition check_case_af (c : case_af) : bool := lN_eqb (model_obs_af c) (af_expect c).
+
+(* ================= C. the session / task emitters and a refused log write =================
+   session.rs emit_event (and tasks/mod.rs TaskEmitter::emit): the frame is numbered from the run-local
+   counter, recorded in the history buffer and published, THEN `event_log.append` is called and its result is
+   dropped (`let _ =`); the counter moves either way.  A site is (kind, did the log write succeed). *)
+Fixpoint emit_unchecked (sid cnt : N) (sites : list (etype * bool)) : log :=
+  match sites with
+  | [] => []
+  | (t, ok) :: r => (if ok then [mkf sid (t, cnt)] else []) ++ emit_unchecked sid (cnt + 1) r
+  end.
